@@ -30,6 +30,8 @@ class ThisPredicate[T](Predicate[T]):
 
 
 def find_this_predicate(frame, predicate: Predicate) -> Predicate | None:
+    if is_library_frame(frame):
+        return find_this_predicate(frame.f_back, predicate) if frame.f_back else None
     for key, value in frame.f_locals.items():
         if isinstance(value, Predicate) and value != predicate and key != "self":
             if predicate_in_predicate_tree(value, predicate):
@@ -37,6 +39,11 @@ def find_this_predicate(frame, predicate: Predicate) -> Predicate | None:
     if next_frame := frame.f_back:
         return find_this_predicate(next_frame, predicate)
     return None
+
+
+def is_library_frame(frame) -> bool:
+    """Return True for a frame that runs the library's own code: its locals (loop variables) never define a user's predicate."""
+    return frame.f_globals.get("__name__", "").startswith("predicate.")
 
 
 def predicate_in_predicate_tree(tree: Predicate, predicate: Predicate) -> bool:
